@@ -29,6 +29,26 @@ type spec struct {
 }
 
 var specs = map[string]spec{
+	"C02": {
+		jobs: []job{
+			{name: "lattice", test: "TestC02Lattice", shards: [2]int{8, 15}, secs: [2]int{600, 900}},
+			{name: "random", test: "TestC02Random", rapid: true, checks: [2]int{4000, 300000}, shards: [2]int{8, 16}, secs: [2]int{600, 3600}},
+			{name: "fuzz", test: "FuzzC02", fuzz: true, tier: "thorough", count: [2]int{0, 60}, secs: [2]int{0, 600}, cores: 8},
+		},
+		rule:        "One-instruction programs assembled by risc.Parse, run through ReadRegisters/WriteRegisters/MemoryRead/MemoryWrite/Run on a plain and on a rename-table context. lattice = 45 mnemonics x 40x40 boundary values x 11 register patterns (distinct, every rd/rs alias, zero in every position), exhaustive; random = rapid-drawn mnemonic, registers (any of 32), operands/immediates (lattice, small, uniformly spread int32), pc and branch target. Two oracles that must agree with each other and with the code: the reference step function and a table of closed-form 64-bit expressions. Non-trivial = operands on which two readings of the instruction differ (signed vs unsigned compare, shift amount > 31 or negative, logical vs arithmetic shift of a negative value, wrap-around of add/sub/mul, sign bit of the loaded sub-word set, negative div/rem operands, stores of values wider than a byte) — or, for the remaining mnemonics, a negative operand or a zero/aliased destination; distinct by (text, operands, pc, target, bytes, context kind).",
+		assumptions: []string{"RV32IM semantics as transcribed in harness/ref (ALU/Cond/LoadValue/StoreBytes) and independently in c02Alt", "division by zero is outside C02's domain (it is C07's defined error)", "a write of 0 to the zero register is harmless"},
+	},
+	"C11": {
+		jobs: []job{
+			{name: "accepted", test: "TestC11Accepted", rapid: true, checks: [2]int{1500, 40000}, shards: [2]int{4, 8}, secs: [2]int{600, 3600}},
+			{name: "mutations", test: "TestC11Mutations", rapid: true, checks: [2]int{3000, 100000}, shards: [2]int{6, 8}, secs: [2]int{600, 3600}},
+			{name: "alphabet", test: "TestC11Alphabet", rapid: true, checks: [2]int{10000, 400000}, shards: [2]int{3, 4}, secs: [2]int{600, 3600}},
+			{name: "bytes", test: "TestC11Bytes", rapid: true, checks: [2]int{10000, 400000}, shards: [2]int{3, 4}, secs: [2]int{600, 3600}},
+			{name: "fuzz", test: "FuzzC11", fuzz: true, tier: "thorough", count: [2]int{0, 120}, secs: [2]int{0, 900}, cores: 8},
+		},
+		rule:        "(a) totality: risc.Parse under recover on arbitrary bytes, strings over the assembler alphabet (mnemonics, registers, digits, punctuation, huge immediates), and grammar-directed mutations of formatted valid programs (truncate, delete, insert token, drop/double parenthesis, tabs, duplicate line/label, huge immediate, drop/empty operand, 10^4-character line, token swap); every accepted text is then judged by an independent line grammar: instruction count = instruction lines, label -> 4 x index of the next instruction (either definition of a duplicate), each line this oracle can decode is probed (type, declared sets, one execution on distinct register values against the reference). (b) programs rendered from generated ASTs with drawn formatting (space/tab indentation, blank and CRLF lines, full-line and trailing comments, upper/mixed-case mnemonics, $-registers, spacing around commas and parentheses, +immediates) must be accepted, decode to the AST, and give the same observations as the plain rendering. Non-trivial = (a) input with at least one line that is a valid instruction, (b) program with a label used by a conditional branch and at least one formatting feature; distinct by text.",
+		assumptions: []string{"the independent line grammar in c11_test.go (label line = one token ending in ':', instruction line = known mnemonic followed by a space or the end of the line); accepted texts with a line outside it are judged for totality only", "a rejected (error) text is a legal outcome for anything but the well-formed programs of (b)"},
+	},
 	"C16": {
 		jobs: []job{
 			{name: "lattice", test: "TestC16Lattice", secs: [2]int{300, 300}},
@@ -36,8 +56,8 @@ var specs = map[string]spec{
 			{name: "exhaustive", test: "TestC16Exhaustive", tier: "thorough", shards: [2]int{0, 16}, secs: [2]int{0, 3600}},
 			{name: "fuzz", test: "FuzzC16", fuzz: true, tier: "thorough", count: [2]int{0, 30}, secs: [2]int{0, 300}, cores: 8},
 		},
-		rule: "32-bit patterns: lattice = every value whose four bytes come from {00,01,7f,80,81,fe,ff,55,aa} plus all 1-bit/2-bit patterns and complements; random = rapid Uint32; thorough = every one of the 2^32 patterns (each judged as a value to split and as a byte quadruple to join). Oracle: encoding/binary.LittleEndian both ways plus sw-then-lw through the instruction implementations. Non-trivial = at least one of bits 7/15/23/31 set (a sign bit of some byte); distinct by value.",
-		assumptions: []string{"encoding/binary.LittleEndian is the definition of little-endian", "the harness rebuilds /repo's working tree with -tags verif"},
+		rule:           "32-bit patterns: lattice = every value whose four bytes come from {00,01,7f,80,81,fe,ff,55,aa} plus all 1-bit/2-bit patterns and complements; random = rapid Uint32; thorough = every one of the 2^32 patterns (each judged as a value to split and as a byte quadruple to join). Oracle: encoding/binary.LittleEndian both ways plus sw-then-lw through the instruction implementations. Non-trivial = at least one of bits 7/15/23/31 set (a sign bit of some byte); distinct by value.",
+		assumptions:    []string{"encoding/binary.LittleEndian is the definition of little-endian", "the harness rebuilds /repo's working tree with -tags verif"},
 		exhaustiveTier: "thorough-never", // the thorough tier also runs sampled jobs; per-job flags carry exhaustive:true
 	},
 }
